@@ -20,14 +20,19 @@ impl TryFrom<String> for BuildpackApi {
         // If no minor version is specified, it defaults to `0`.
         let (major, minor) = &value.split_once('.').unwrap_or((&value, "0"));
 
-        Ok(Self {
-            major: major
-                .parse()
-                .map_err(|_| Self::Error::InvalidBuildpackApi(value.clone()))?,
-            minor: minor
-                .parse()
-                .map_err(|_| Self::Error::InvalidBuildpackApi(value.clone()))?,
-        })
+        // `u64::from_str` also accepts a leading `+` sign, but only plain digits are valid here.
+        let parse_digits = |digits: &str| -> Option<u64> {
+            if digits.bytes().all(|byte| byte.is_ascii_digit()) {
+                digits.parse().ok()
+            } else {
+                None
+            }
+        };
+
+        match (parse_digits(major), parse_digits(minor)) {
+            (Some(major), Some(minor)) => Ok(Self { major, minor }),
+            _ => Err(Self::Error::InvalidBuildpackApi(value.clone())),
+        }
     }
 }
 
